@@ -12,6 +12,12 @@ def setup(ctx, rng, res, n_pool=2):
     keys = chain.Keys(rng, 5)
     tree = chain.Tree(rng, keys)           # real genesis: the store always holds it
     tree.grow(rng.randrange(6, 12), fork_prob=0.3)
+    # an output paying a key that is not a curve point: a later spend of it makes signature checking raise something
+    # other than a validation error (class bad_curve_point)
+    sp = [(r, o) for r, o in tree.spendable(tree.cs.current_chain_hash) if o.value > 10]
+    if sp:
+        r, o = sp[0]
+        tree.extend(txs=[chain.make_tx(keys, tree.utxo(tree.cs.current_chain_hash), [r], [(o.value - 5, 0), (5, b"\x05" * 64)])])
     rn = node.RealNode(tree.cs, tree.blocks)
     rn.add_peer(active=True)
     rn.add_peer(active=True, outgoing=True)
@@ -50,6 +56,7 @@ def run(ctx):
         held_back = []                                  # valid blocks built but not yet delivered (orphans' parents)
         accepted_ids = []
         sig_mark = len(keys.oracle)
+        forced_curve = False
         for di in range(n_deliv):
             choice = rng.random()
             kind = None
@@ -82,6 +89,11 @@ def run(ctx):
             else:
                 klass = rng.choice(broken_classes)
                 ph = rng.choice([b for b in tree.blocks[-6:] if b.hash() in known] or [tree.blocks[0]]).hash()
+                if not forced_curve and di >= 3:
+                    with_garbage = [b for b in tree.blocks if b.hash() in known and any(
+                        o.public_key.public_key == b"\x05" * 64 for o in tree.utxo(b.hash()).values())]
+                    if with_garbage:
+                        klass, forced_curve, ph = "bad_curve_point", True, with_garbage[-1].hash()
                 try:
                     c = ledger.make_candidate(cr, klass, ph, [])
                 except Exception:
@@ -108,6 +120,8 @@ def run(ctx):
             impl.append(after)
             res.case(blk.serialize() + bytes([di]), nontrivial=True)
             res.count("delivery:" + kind.split(":")[0])
+            if kind.startswith("broken:"):
+                res.count("broken_class:" + kind.split(":")[1])
             # ---- monitors on the implementation
             info = {"kind": None, "delivery": kind, "block": blk.serialize().hex(), "now": now, "scenario": si, "step": di}
             new = rn.cm.coinstate
